@@ -29,6 +29,9 @@
  *     due, killed) has been reported or closed
  *   W uv__wait_children()    K<h>:<sig> uv_process_kill   Z<h> reap h behind libuv's back
  *   C<h> uv_close(process)   I<n> the next waitpid call first fails n times with EINTR
+ *   Y<k>:<r|o> uv_signal_start / uv_signal_start_oneshot of user watcher k on SIGCHLD
+ *   y<k> uv_signal_stop(k)   X<k> uv_close(k)
+ *   H uv_disable_stdio_inheritance(), descriptor table printed before and after
  */
 #include <stdio.h>
 #include <stdlib.h>
@@ -145,6 +148,8 @@ static uv_pipe_t* pipes_h[MAXP][MAXSLOT];
 static int gate_open[32];
 static int spawn_ok[MAXP], gate_of[MAXP], gate_due[32], killed_h[MAXP], stolen_h[MAXP];
 static uv_timer_t timers[32];
+static uv_signal_t* usig[8];
+static int usig_closed[8];
 static int ntimers;
 static int cur_spawn = -1;     /* child being spawned (for the fork wrapper) */
 static int inj_eintr, inj_sp = -1, inj_pipe, inj_fork, sp_calls;
@@ -247,6 +252,21 @@ static void exit_cb(uv_process_t* p, int64_t es, int ts) {
   char c = (r == -1 && errno == ECHILD) ? 'C' : (r == 0 ? 'R' : (r > 0 ? 'Z' : '?'));
   OUT("x%d:%lld:%d:%c:%d ", h, (long long) es, ts, c, uv_is_active((uv_handle_t*) p) ? 1 : 0);
   scan_last = -1;
+}
+
+static void usig_cb(uv_signal_t* h, int signum) {
+  OUT("v%d ", (int) (intptr_t) h->data);
+  (void) signum;
+}
+
+/* libuv will never hear of an exit: SIGCHLD blocked in the loop thread, or its disposition is
+ * not a handler any more.  0 = fine */
+static const char* sigchld_dead(void) {
+  struct sigaction sa;
+  if (cur_mask() & (1ULL << (SIGCHLD - 1))) return "blocked";
+  if (sigaction(SIGCHLD, NULL, &sa) == 0 && !(sa.sa_flags & SA_SIGINFO) &&
+      (sa.sa_handler == SIG_DFL || sa.sa_handler == SIG_IGN)) return "default";
+  return NULL;
 }
 
 static void release_gate(int n) {
@@ -463,11 +483,17 @@ static void run_case(char* line) {
     case 'D':
       /* block in the loop until every child that is on its way out was dealt with */
       for (;;) {
-        int h, waiting = 0;
-        if (cur_mask() & (1ULL << (SIGCHLD - 1))) {
-          /* SIGCHLD is blocked in the loop thread: libuv will never hear of an exit and
-           * uv_run would block for good.  Make sure the children are gone, give the loop
-           * two passes, and say who is still waiting. */
+        int h, waiting = 0, any = 0;
+        const char* dead = sigchld_dead();
+        for (h = 0; h < MAXP; h++)
+          if (spawned[h] && spawn_ok[h] && !closed[h] && !stolen_h[h] && procs[h] &&
+              uv_is_active((uv_handle_t*) procs[h]) &&
+              (gate_of[h] < 0 || gate_due[gate_of[h]] || killed_h[h]))
+            any = 1;
+        if (dead && any) {
+          /* SIGCHLD is blocked in the loop thread or its disposition was reset: libuv will
+           * never hear of an exit and uv_run would block for good.  Make sure the children
+           * are gone, give the loop two passes, and say who is still waiting. */
           int first = 1;
           for (h = 0; h < 32; h++) if (gate_due[h]) release_gate(h);   /* timers may not have run */
           for (h = 0; h < MAXP; h++)
@@ -484,7 +510,8 @@ static void run_case(char* line) {
             if (spawned[h] && spawn_ok[h] && !closed[h] && !stolen_h[h] && procs[h] &&
                 uv_is_active((uv_handle_t*) procs[h]) &&
                 (gate_of[h] < 0 || gate_due[gate_of[h]] || killed_h[h])) {
-              OUT("%s%d", first ? "stuck:" : ",", h);
+              if (first) OUT("stuck:%s:", dead);
+              OUT("%s%d", first ? "" : ",", h);
               first = 0;
             }
           if (!first) OUT(" ");
@@ -527,6 +554,30 @@ static void run_case(char* line) {
       break;
     }
     case 'I': inj_eintr = atoi(tok + 1); break;
+    case 'Y': {
+      int k = atoi(tok + 1);
+      char* c2 = strchr(tok, ':');
+      if (k >= 0 && k < 8 && c2 && !usig_closed[k]) {
+        int r;
+        if (!usig[k]) {
+          usig[k] = calloc(1, sizeof(uv_signal_t));
+          uv_signal_init(&loop, usig[k]);
+          usig[k]->data = (void*) (intptr_t) k;
+          uv_unref((uv_handle_t*) usig[k]);
+        }
+        r = c2[1] == 'o' ? uv_signal_start_oneshot(usig[k], usig_cb, SIGCHLD)
+                         : uv_signal_start(usig[k], usig_cb, SIGCHLD);
+        if (r != 0) OUT("usig-start-failed:%d ", r);
+      }
+      break;
+    }
+    case 'y': a = atoi(tok + 1); if (a >= 0 && a < 8 && usig[a] && !usig_closed[a]) uv_signal_stop(usig[a]); break;
+    case 'X': a = atoi(tok + 1); if (a >= 0 && a < 8 && usig[a] && !usig_closed[a]) { usig_closed[a] = 1; uv_close((uv_handle_t*) usig[a], close_cb); } break;
+    case 'H':
+      snapshot("Hb", 0);
+      uv_disable_stdio_inheritance();
+      snapshot("Ha", 0);
+      break;
     default: break;
     }
   }
